@@ -1,4 +1,5 @@
 import AgModel.Proofs.ProgressCluster
+import AgModel.Proofs.ProgressSkip
 /-!
 # C02 — progress of the cluster of executable model nodes under timely delivery
 
@@ -210,5 +211,122 @@ theorem chain_next_window_ready (c : Cfg) (hi s : Nat) (p : Nat × Nat) (st : St
     ((st i).votor.getS s).parentsReady.contains p = true ∧ ParentReady.parentsReady (st i).pool.pr s = [p] := by
   refine ⟨(hr i hi').votor.parentW hw, ?_⟩
   rw [ParentReady.parentsReady_eq_get, (hr i hi').trk.atS.2.2, if_pos ((isWindowStart_iff s).mpr hw)]
+
+/-! ## Stage D — a window whose leader is silent or crashed is skipped and does not block the next one -/
+
+/-- **Silent / crashed leader.** From any state in which every correct node is ready for slot `s` with parent `p` (`s` the first
+    slot of a window, or any later slot of it: the leader crashed mid-window), with ≥ 60 % correct stake: no block is delivered,
+    the timeouts of the slots `s … E-1` of the window fire at every correct node (`E = wEnd s`, the first slot of the next
+    window), one exchange of the skip votes and every Votor draining its queue. Then the pool of every correct node holds a
+    **skip certificate for every slot `s ≤ t < E`**, and **every correct node is ready for the first slot `E` of the next window
+    with the same parent `p`** (its pool announced `ParentReady(E, p)`, its Votor handled it: `chain_next_window_ready`) — the
+    window does not block the next one. The schedule is valid and nobody dies. -/
+theorem silent_leader_skipped (c : Cfg) (hpos : 0 < c.stakes.sum) (hi s : Nat) (p : Nat × Nat) (st : State)
+    (hE : wEnd s ≤ hi + 1) (hr : CReady c hi s p st) (h60 : 3 * c.stakes.sum ≤ 5 * correctStake c) :
+    Valid c st (skipSched c s (List.range' s (wEnd s - s)) st) ∧
+    (∀ i, (st i).dead = false → (run st (skipSched c s (List.range' s (wEnd s - s)) st) i).dead = false) ∧
+    (∀ i ∈ correctIds c, ∀ t, s ≤ t → t < wEnd s →
+      ∃ a x, (run st (skipSched c s (List.range' s (wEnd s - s)) st) i).pool.getSlot t = some a ∧ a.cSkip = some x) ∧
+    CReady c hi (wEnd s) p (run st (skipSched c s (List.range' s (wEnd s - s)) st)) := by
+  have hq := (cQuorum_iff c).mpr h60
+  obtain ⟨v, m, r', o⟩ := skip_master c hpos hE hr hq
+  refine ⟨v, ?_, ?_, r'⟩
+  · intro i hd
+    by_cases hi' : i ∈ correctIds c
+    · exact (m i hi').alive
+    · rw [o i hi']; exact hd
+  · intro i hi' t h1 h2
+    have hsk := (m i hi').pool.slots t h1 h2
+    have hsome : ((run st (skipSched c s (List.range' s (wEnd s - s)) st) i).pool.slotState t).2.cSkip.isSome = true := by
+      rw [hsk.cSkip]; exact hq
+    cases hg : (run st (skipSched c s (List.range' s (wEnd s - s)) st) i).pool.getSlot t with
+    | none =>
+      rw [slotState_snd_of_none hg] at hsome
+      cases hsome
+    | some a =>
+      rw [slotState_snd_of_some hg] at hsome
+      obtain ⟨x, hx⟩ := option_some_of_isSome hsome
+      exact ⟨a, x, rfl, hx⟩
+
+/-! ## progress is inductive: any sequence of windows with correct or silent leaders -/
+
+/-- a plan: `some hs` — the next leader(s) are correct and their blocks `(s, h₀), (s+1, h₁), …` arrive in time (any number of
+    consecutive slots, also across window boundaries); `none` — the leader of the current window is silent from the current
+    slot on, the timeouts of the rest of the window fire -/
+abbrev Plan := List (Option (List Nat))
+
+def planSched (c : Cfg) : Plan → Nat → State → List Ev
+  | [], _, _ => []
+  | some hs :: rest, s, st =>
+    windowSched c (blocksFrom s hs) st ++ planSched c rest (s + hs.length) (run st (windowSched c (blocksFrom s hs) st))
+  | none :: rest, s, st =>
+    skipSched c s (List.range' s (wEnd s - s)) st ++
+      planSched c rest (wEnd s) (run st (skipSched c s (List.range' s (wEnd s - s)) st))
+
+/-- the blocks of the plan form a chain (blocks after a skipped window build on the last block before it) -/
+def planOk (c : Cfg) : Plan → Nat × Nat → Nat → Prop
+  | [], _, _ => True
+  | some hs :: rest, p, s => chainOk c p s hs ∧ planOk c rest (lastBlock p s hs) (s + hs.length)
+  | none :: rest, p, s => planOk c rest p (wEnd s)
+
+def planEnd : Plan → Nat × Nat → Nat → (Nat × Nat) × Nat
+  | [], p, s => (p, s)
+  | some hs :: rest, p, s => planEnd rest (lastBlock p s hs) (s + hs.length)
+  | none :: rest, p, s => planEnd rest p (wEnd s)
+
+def planBlocks : Plan → Nat → List (Nat × Nat)
+  | [], _ => []
+  | some hs :: rest, s => blocksFrom s hs ++ planBlocks rest (s + hs.length)
+  | none :: rest, s => planBlocks rest (wEnd s)
+
+/-- **Progress over any sequence of leader windows** with correct leaders (blocks delivered in time) and silent / crashed
+    leaders (timeouts), from any state in which every correct node is ready — in particular from the initial cluster
+    (`init_ready`): the timely schedule is valid, nobody dies, **every block of a correct leader is reported finalized by the
+    pool of every correct node**, windows of silent leaders are skipped, and at the end every correct node is ready for the
+    next slot: the highest finalized slot keeps advancing for as long as the plan goes on. -/
+theorem timely_progress (c : Cfg) (hpos : 0 < c.stakes.sum) (hi : Nat) (h60 : 3 * c.stakes.sum ≤ 5 * correctStake c) :
+    ∀ (pl : Plan) (p : Nat × Nat) (s : Nat) (st : State), (planEnd pl p s).2 ≤ hi + 1 → CReady c hi s p st → planOk c pl p s →
+    Valid c st (planSched c pl s st) ∧
+    (∀ i, (st i).dead = false → (run st (planSched c pl s st) i).dead = false) ∧
+    (∀ b ∈ planBlocks pl s, ∀ i ∈ correctIds c, FinalizedDuring st (planSched c pl s st) i (Blk.mk' b.1 b.2)) ∧
+    CReady c hi (planEnd pl p s).2 (planEnd pl p s).1 (run st (planSched c pl s st)) := by
+  have hmono : ∀ (pl : Plan) (p : Nat × Nat) (s : Nat), s ≤ (planEnd pl p s).2 := by
+    intro pl
+    induction pl with
+    | nil => intro p s; exact Nat.le_refl _
+    | cons a rest ih =>
+      intro p s
+      cases a with
+      | none => exact Nat.le_trans (Nat.le_of_lt (lt_wEnd s)) (ih p (wEnd s))
+      | some hs => exact Nat.le_trans (Nat.le_add_right _ _) (ih (lastBlock p s hs) (s + hs.length))
+  intro pl
+  induction pl with
+  | nil =>
+    intro p s st _ hr _
+    exact ⟨trivial, fun i hd => hd, fun b hb => by simp [planBlocks] at hb, hr⟩
+  | cons a rest ih =>
+    intro p s st hend hr hok
+    cases a with
+    | some hs =>
+      obtain ⟨hc, hok'⟩ := hok
+      have hlen : s + hs.length ≤ hi + 1 := Nat.le_trans (hmono rest _ _) hend
+      obtain ⟨a1, a2, a3, a4⟩ := timely_chain c hpos hi h60 hs p s st hlen hr hc
+      obtain ⟨b1, b2, b3, b4⟩ := ih (lastBlock p s hs) (s + hs.length) _ hend a4 hok'
+      simp only [planSched, planBlocks, planEnd]
+      refine ⟨(valid_append c st _ _).mpr ⟨a1, b1⟩, ?_, ?_, by rw [run_append]; exact b4⟩
+      · intro i hd; rw [run_append]; exact b2 i (a2 i hd)
+      · intro b hb i hi'
+        rcases List.mem_append.mp hb with hb | hb
+        · exact (a3 b hb i hi').append_left
+        · exact (b3 b hb i hi').append_right
+    | none =>
+      have hlen : wEnd s ≤ hi + 1 := Nat.le_trans (hmono rest _ _) hend
+      obtain ⟨a1, a2, _, a4⟩ := silent_leader_skipped c hpos hi s p st hlen hr h60
+      obtain ⟨b1, b2, b3, b4⟩ := ih p (wEnd s) _ hend a4 hok
+      simp only [planSched, planBlocks, planEnd]
+      refine ⟨(valid_append c st _ _).mpr ⟨a1, b1⟩, ?_, ?_, by rw [run_append]; exact b4⟩
+      · intro i hd; rw [run_append]; exact b2 i (a2 i hd)
+      · intro b hb i hi'
+        exact (b3 b hb i hi').append_right
 
 end AgModel.Cluster
